@@ -6,6 +6,6 @@ CONSTANTS
   MaxCrashes = 0
   MaxRuns = 1
   Tolerated <- NoTol
-  Gen = FALSE
+  Gen = "off"
 INVARIANTS NoClauseViolated InvQuiescentAtRelease InvDurLagsMem
 CHECK_DEADLOCK TRUE
